@@ -345,18 +345,6 @@ impl<'a> LiveEvents<'a> {
                     }
 
                     let tag_s = SfTag::from_optional_cow(&tag);
-                    // The parser reports an omitted node as the plain scalar `~`, but as an
-                    // empty plain scalar when it carries an anchor: an anchor must not change
-                    // what a node is, so both are delivered as `~`.
-                    let val = if val.is_empty()
-                        && matches!(style, ScalarStyle::Plain)
-                        && tag_s == SfTag::None
-                    {
-                        Cow::Borrowed("~")
-                    } else {
-                        val
-                    };
-
                     let ev = Ev::Scalar {
                         value: val,
                         tag: tag_s,
